@@ -88,15 +88,36 @@ func (r *responseWriter) WriteHeader(statusCode int) {
 		fmt.Fprint(r.writer, "\r\n")
 
 		// transfer-coding names are case-insensitive
-		if strings.EqualFold(r.Header().Get("Transfer-Encoding"), "chunked") {
+		if r.bodyAllowed() && strings.EqualFold(r.Header().Get("Transfer-Encoding"), "chunked") {
 			r.chunkWriter = httputil.NewChunkedWriter(r.writer)
 		}
 	}
 }
 
+// bodyAllowed reports whether this response may carry a body: never the answer
+// to a HEAD request, nor a 1xx, 204 or 304 response.
+func (r *responseWriter) bodyAllowed() bool {
+	switch {
+	case http.MethodHead == r.request.Method:
+		return false
+	case r.statusCode >= 100 && r.statusCode <= 199, http.StatusNoContent == r.statusCode, http.StatusNotModified == r.statusCode:
+		return false
+	}
+	return true
+}
+
 func (r *responseWriter) Write(b []byte) (int, error) {
 	if !r.wroteHeader {
 		r.WriteHeader(http.StatusOK)
+	}
+
+	if !r.bodyAllowed() {
+		// like net/http: the body of an answer to HEAD is dropped silently,
+		// for a status without body it is an error to write one.
+		if http.MethodHead == r.request.Method {
+			return len(b), nil
+		}
+		return 0, http.ErrBodyNotAllowed
 	}
 
 	if r.chunkWriter != nil {
